@@ -1,5 +1,158 @@
-import AlgoVerif.Model.C02Run
-/-! # C03 — property theorems (under construction) -/
+import AlgoVerif.Proofs.C02Chain
+import AlgoVerif.Proofs.C02OA
+import AlgoVerif.Proofs.C02LinDel
+/-!
+# C03 — every hash-table operation terminates, whatever the delete/insert churn
+
+In the Model every probe loop has fuel `m` (one unit per inspected slot) and the `Put → resize → Put`
+recursion has fuel `depth`; running out of fuel is the outcome `diverge`.  The theorems say: for every
+hash function, valid options, shuffle and history `ops` the Model reaches a state (no earlier operation
+failed), **any** further operation `op` returns `ok` (so its loops stopped within their fuel: at most
+`m` probes), and in the reached state the probe walk of **every** key — present, deleted or never
+seen — inspects at most `cover ≤ m` slots (`cover = (m+1)/2` for quadratic probing).
+
+Ingredients (each a lemma with a real proof, in `Proofs/C02Num.lean` and `Proofs/C02OA.lean`):
+`isPrime_correct`, `smallestPrimeLargerThan_terminates` (Bertrand's postulate, Mathlib), `quad_cover`,
+`double_cover`, `h2of_coprime`, `pigeonhole`, `OA.u_lt_cover` (the bound `u ≤ (m-1)/2` that the new
+check in `Put` establishes), `OA.exists_free`.
+-/
 open AlgoVerif AlgoVerif.C02
 
-theorem C03_placeholder : isPrime 31 = true := by decide
+/-- separate chaining: no operation fails; a bucket walk visits at most `n` nodes -/
+theorem C03_chain {K V σ : Type} [DecidableEq K] (hash : K → UInt64) (sh : Shuffle σ) (hsh : ShufflePerm sh)
+    (eqVal : V → V → Bool) (opts : Opts) (hv : Chain.ValidOpts opts) (g : σ) (ops : List (Op K V)) (op : Op K V) :
+    ∃ t0 : ChainTable K V, Chain.new opts = .ok t0 ∧
+      ∃ st r, reach (Chain.impl sh hash eqVal) ⟨t0, t0, g⟩ ops = some st ∧
+        step (Chain.impl sh hash eqVal) st op = .ok r ∧
+        ∀ (b : Bool) (key : K),
+          ((Chain.nodesVisited key (Chain.bucket (st.sel b) (Chain.hashIdx (st.sel b).m (mix (hash key)))) : Nat) : Int)
+            ≤ (st.sel b).n := by
+  obtain ⟨t0, hnew, hinv, hempty⟩ := Chain.init_spec (V := V) hash opts hv
+  have hrel : Rel (Chain.Inv hash) Chain.Live t0 ([] : Spec.Map K V) :=
+    ⟨hinv, Spec.nodupKeys_nil, fun k v => by simp [hempty k v]⟩
+  obtain ⟨st, r, hreach, hstep⟩ :=
+    step_ok_of_reach (Chain.correct hsh hash eqVal) ops ⟨t0, t0, g⟩ ⟨[], []⟩ hrel hrel op (Or.inl trivial)
+  obtain ⟨st', hreach', ha, hb⟩ := reach_inv (Chain.correct hsh hash eqVal) ops ⟨t0, t0, g⟩ ⟨[], []⟩ (Or.inl trivial) hrel hrel
+  rw [hreach] at hreach'
+  cases hreach'
+  refine ⟨t0, hnew, st, r, hreach, hstep, ?_⟩
+  intro b key
+  cases b
+  · exact Chain.nodes_bound hash st.a key ha
+  · exact Chain.nodes_bound hash st.b key hb
+
+/-- linear probing (`linear_hash_table.go`): no operation fails (in particular the re-insertion loop of
+`Delete` ends within `m` re-insertions) and every probe walk inspects at most `m` slots -/
+theorem C03_linear {K V σ : Type} [DecidableEq K] (hash : K → UInt64) (sh : Shuffle σ) (hsh : ShufflePerm sh)
+    (eqVal : V → V → Bool) (opts : Opts) (hv : Lin.ValidOpts opts) (g : σ) (ops : List (Op K V)) (op : Op K V) :
+    ∃ t0 : LinTable K V, Lin.new opts = .ok t0 ∧
+      ∃ st r, reach (Lin.impl sh hash eqVal) ⟨t0, t0, g⟩ ops = some st ∧
+        step (Lin.impl sh hash eqVal) st op = .ok r ∧
+        ∀ (b : Bool) (key : K), ∃ c,
+          Lin.probes (st.sel b) (mix (hash key)) key (st.sel b).m 0 = some c ∧ c ≤ (st.sel b).m := by
+  obtain ⟨t0, hnew, hinv, hempty⟩ := Lin.init_spec (V := V) hash opts hv
+  have hrel : Rel (Lin.Inv hash) Lin.Live t0 ([] : Spec.Map K V) :=
+    ⟨hinv, Spec.nodupKeys_nil, fun k v => by simp [hempty k v]⟩
+  obtain ⟨st, r, hreach, hstep⟩ :=
+    step_ok_of_reach (Lin.correct hsh hash eqVal) ops ⟨t0, t0, g⟩ ⟨[], []⟩ hrel hrel op (Or.inl trivial)
+  obtain ⟨st', hreach', ha, hb⟩ := reach_inv (Lin.correct hsh hash eqVal) ops ⟨t0, t0, g⟩ ⟨[], []⟩ (Or.inl trivial) hrel hrel
+  rw [hreach] at hreach'
+  cases hreach'
+  refine ⟨t0, hnew, st, r, hreach, hstep, ?_⟩
+  intro b key
+  have hsel : Lin.Inv hash (st.sel b) := by cases b <;> simp [State.sel, ha, hb]
+  exact Lin.probes_bound hash (st.sel b) key hsel
+
+/-- quadratic probing and double hashing share the Model; `kind` selects the probe sequence -/
+theorem C03_openAddressing {K V σ : Type} [DecidableEq K] (kind : Kind) (hash : K → UInt64) (sh : Shuffle σ)
+    (hsh : ShufflePerm sh) (eqVal : V → V → Bool) (opts : Opts) (hv : OA.ValidOpts kind opts) (g : σ)
+    (ops : List (Op K V)) (op : Op K V) :
+    ∃ t0 : OATable K V, OA.new kind opts = .ok t0 ∧
+      ∃ st r, reach (OA.impl sh hash eqVal) ⟨t0, t0, g⟩ ops = some st ∧
+        step (OA.impl sh hash eqVal) st op = .ok r ∧
+        ∀ (b : Bool) (key : K), ∃ cg cf,
+          OA.probesGet (st.sel b) (mix (hash key)) key (st.sel b).m 0 = some cg ∧
+          OA.probesFind (st.sel b) (mix (hash key)) key (st.sel b).m 0 = some cf ∧
+          cg ≤ cover (st.sel b).kind (st.sel b).m ∧ cf ≤ cover (st.sel b).kind (st.sel b).m ∧
+          cover (st.sel b).kind (st.sel b).m ≤ (st.sel b).m := by
+  obtain ⟨t0, hnew, hinv, hempty⟩ := OA.init_spec (V := V) hash kind opts hv
+  have hrel : Rel (OA.Inv hash) OA.Live t0 ([] : Spec.Map K V) :=
+    ⟨hinv, Spec.nodupKeys_nil, fun k v => by simp [hempty k v]⟩
+  obtain ⟨st, r, hreach, hstep⟩ :=
+    step_ok_of_reach (OA.correct hsh hash eqVal) ops ⟨t0, t0, g⟩ ⟨[], []⟩ hrel hrel op (Or.inl trivial)
+  obtain ⟨st', hreach', ha, hb⟩ := reach_inv (OA.correct hsh hash eqVal) ops ⟨t0, t0, g⟩ ⟨[], []⟩ (Or.inl trivial) hrel hrel
+  rw [hreach] at hreach'
+  cases hreach'
+  refine ⟨t0, hnew, st, r, hreach, hstep, ?_⟩
+  intro b key
+  have hsel : OA.Inv hash (st.sel b) := by cases b <;> simp [State.sel, ha, hb]
+  obtain ⟨cg, cf, h1, h2, h3, h4⟩ := OA.probes_bound hash (st.sel b) key hsel
+  exact ⟨cg, cf, h1, h2, h3, h4, cover_le _ _⟩
+
+/-- quadratic probing (`quadratic_hash_table.go`): at most `(m+1)/2 ≤ m` probes -/
+theorem C03_quadratic {K V σ : Type} [DecidableEq K] (hash : K → UInt64) (sh : Shuffle σ)
+    (hsh : ShufflePerm sh) (eqVal : V → V → Bool) (opts : Opts) (hv : OA.ValidOpts .quad opts) (g : σ)
+    (ops : List (Op K V)) (op : Op K V) :
+    ∃ t0 : OATable K V, OA.new .quad opts = .ok t0 ∧
+      ∃ st r, reach (OA.impl sh hash eqVal) ⟨t0, t0, g⟩ ops = some st ∧
+        step (OA.impl sh hash eqVal) st op = .ok r ∧
+        ∀ (b : Bool) (key : K), ∃ cg cf,
+          OA.probesGet (st.sel b) (mix (hash key)) key (st.sel b).m 0 = some cg ∧
+          OA.probesFind (st.sel b) (mix (hash key)) key (st.sel b).m 0 = some cf ∧
+          cg ≤ cover (st.sel b).kind (st.sel b).m ∧ cf ≤ cover (st.sel b).kind (st.sel b).m ∧
+          cover (st.sel b).kind (st.sel b).m ≤ (st.sel b).m :=
+  C03_openAddressing .quad hash sh hsh eqVal opts hv g ops op
+
+/-- double hashing (`double_hash_table.go`): at most `m` probes -/
+theorem C03_double {K V σ : Type} [DecidableEq K] (hash : K → UInt64) (sh : Shuffle σ)
+    (hsh : ShufflePerm sh) (eqVal : V → V → Bool) (opts : Opts) (hv : OA.ValidOpts .dbl opts) (g : σ)
+    (ops : List (Op K V)) (op : Op K V) :
+    ∃ t0 : OATable K V, OA.new .dbl opts = .ok t0 ∧
+      ∃ st r, reach (OA.impl sh hash eqVal) ⟨t0, t0, g⟩ ops = some st ∧
+        step (OA.impl sh hash eqVal) st op = .ok r ∧
+        ∀ (b : Bool) (key : K), ∃ cg cf,
+          OA.probesGet (st.sel b) (mix (hash key)) key (st.sel b).m 0 = some cg ∧
+          OA.probesFind (st.sel b) (mix (hash key)) key (st.sel b).m 0 = some cf ∧
+          cg ≤ cover (st.sel b).kind (st.sel b).m ∧ cf ≤ cover (st.sel b).kind (st.sel b).m ∧
+          cover (st.sel b).kind (st.sel b).m ≤ (st.sel b).m :=
+  C03_openAddressing .dbl hash sh hsh eqVal opts hv g ops op
+
+/-! ## the hypotheses are satisfiable, on the states of the former defects -/
+section NonVacuity
+
+def idShuffle3 : Shuffle Unit := fun g n => (List.range n, g)
+
+example : ShufflePerm idShuffle3 := fun _ _ => List.Perm.refl _
+example : OA.ValidOpts .quad {} := ⟨Or.inl rfl, by constructor <;> decide⟩
+example : OA.ValidOpts .dbl {} := ⟨Or.inl rfl, by constructor <;> decide⟩
+example : Lin.ValidOpts {} := ⟨Or.inl rfl, by constructor <;> decide⟩
+example : Chain.ValidOpts {} := ⟨Or.inl rfl, by constructor <;> decide⟩
+
+/-- `put i; delete i` for `i = 0 … n-1` -/
+def churn : Nat → List (Op Int Int)
+  | 0 => []
+  | n + 1 => churn n ++ [.put false n n, .delete false n]
+
+/-- D3's history (constant hash, 16 churn cycles at `m = 31`, then `put 16`; before the fix the last `put`
+never returned): the Model, as it is now, runs it to the end — `put 15` re-hashes into the same size and
+drops the 15 tombstones — and the absent key 1000 is then found absent after 3 probes. -/
+example : (match (OA.new .quad {} : Outcome (OATable Int Int)) with
+    | .ok t0 =>
+      match reach (OA.impl idShuffle3 (fun _ => 5) (fun a b => a == b)) ⟨t0, t0, ()⟩ (churn 16 ++ [.put false 16 16]) with
+      | some st => (st.a.m, st.a.n, st.a.u, OA.probesGet st.a (mix 5) 1000 st.a.m 0)
+      | none => (0, 0, 0, none)
+    | _ => (0, 0, 0, none)) = (31, 1, 2, some 3) := by
+  decide
+
+/-- D26's history (constant hash, 16 colliding live keys, no delete): the 16th `put` now grows the table
+to 67 slots, and looking up an absent colliding key takes 17 probes. -/
+example : (match (OA.new .quad {} : Outcome (OATable Int Int)) with
+    | .ok t0 =>
+      match reach (OA.impl idShuffle3 (fun _ => 5) (fun a b => a == b)) ⟨t0, t0, ()⟩
+          ((List.range 16).map fun i => .put false (i + 1 : Nat) 0) with
+      | some st => (st.a.m, st.a.n, st.a.u, OA.probesGet st.a (mix 5) 1000 st.a.m 0)
+      | none => (0, 0, 0, none)
+    | _ => (0, 0, 0, none)) = (67, 16, 16, some 17) := by
+  decide
+
+end NonVacuity
